@@ -434,6 +434,8 @@ func (e *Exec) decideN(site string, conds []*smt.Term) int {
 }
 
 // decideNX: allFeasible skips the feasibility queries (the caller knows every alternative is possible).
+const impliedFlag = 1 << 20
+
 func (e *Exec) decideNX(site string, conds []*smt.Term, allFeasible bool) int {
 	n := len(conds)
 	if e.cfg.Replaying {
@@ -456,8 +458,16 @@ func (e *Exec) decideNX(site string, conds []*smt.Term, allFeasible bool) int {
 	if e.dpos < len(e.prefix) {
 		d := e.prefix[e.dpos]
 		e.dpos++
+		// an implied decision (the only satisfiable alternative under the path condition) carries a
+		// flag: its condition follows from the path condition and is not added to it
+		implied := d&impliedFlag != 0
+		d &^= impliedFlag
 		if d >= n {
 			panic(&Desync{fmt.Sprintf("decision %d out of range %d at %s", d, n, site)})
+		}
+		if implied {
+			e.decisions = append(e.decisions, Decision{N: n, Chosen: d | impliedFlag, Site: site})
+			return d
 		}
 		e.decisions = append(e.decisions, Decision{N: n, Chosen: d, Site: site})
 		e.addPC(conds[d])
@@ -465,18 +475,33 @@ func (e *Exec) decideNX(site string, conds []*smt.Term, allFeasible bool) int {
 	}
 	feas := make([]bool, n)
 	first := -1
+	nfeas := 0
+	checked := !(allFeasible || e.cfg.LazyFeas) && len(e.guards) == 0
 	for i, c := range conds {
 		if (allFeasible || e.cfg.LazyFeas) && !c.IsConst() {
+			feas[i] = true
+		} else if i == 1 && n == 2 && !feas[0] && len(e.guards) == 0 && c == e.ctx.Not(conds[0]) {
+			// the path condition is feasible and excludes conds[0]: its complement holds
 			feas[i] = true
 		} else {
 			feas[i] = e.feasible(c)
 		}
-		if feas[i] && first < 0 {
-			first = i
+		if feas[i] {
+			nfeas++
+			if first < 0 {
+				first = i
+			}
 		}
 	}
 	if first < 0 {
 		panic(&pathEnd{"infeasible"})
+	}
+	if checked && nfeas == 1 && n > 1 && !e.cfg.Replaying {
+		// every other alternative is unsatisfiable under the (feasible) path condition, so the path
+		// condition implies this one: keep the path condition small
+		e.decisions = append(e.decisions, Decision{N: n, Chosen: first | impliedFlag, Site: site, Feas: feas})
+		e.dpos++
+		return first
 	}
 	base := make([]int, len(e.decisions))
 	for i, d := range e.decisions {
@@ -603,10 +628,37 @@ func (e *Exec) assume(c *smt.Term) {
 	}
 	e.addPC(c)
 	if !e.cfg.LazyFeas && len(e.guards) == 0 {
-		if !e.feasible(e.ctx.BoolC(true)) {
+		if !e.feasiblePC() {
 			panic(&pathEnd{"assume-infeasible"})
 		}
 	}
+}
+
+// feasiblePC reports whether the path condition itself may be satisfiable (unknown counts as feasible).
+func (e *Exec) feasiblePC() bool {
+	if e.lastModel != nil && e.cfg.Enc == "bv" {
+		ok := true
+		for _, p := range e.pc[e.modelPCLen:] {
+			if v, k := e.lastEval.Eval(p); !k || v != 1 {
+				ok = false
+				break
+			}
+		}
+		if ok {
+			e.modelPCLen = len(e.pc)
+			e.stats.ModelHits++
+			return true
+		}
+		e.lastModel = nil
+	}
+	r := e.query(e.cfg.FeasTimeoutS)
+	if r == smt.Sat {
+		if e.cfg.Enc == "bv" {
+			e.captureModel()
+		}
+		e.sol.EndModel()
+	}
+	return r != smt.Unsat
 }
 
 func (e *Exec) assert(fr *Frame, site ssa.Instruction, c *smt.Term, label string) {
@@ -641,7 +693,7 @@ func (e *Exec) assert(fr *Frame, site ssa.Instruction, c *smt.Term, label string
 func (e *Exec) violationFromModel(kind, label, where string) Violation {
 	v := Violation{Kind: kind, Label: label, Where: where}
 	for _, d := range e.decisions {
-		v.Prefix = append(v.Prefix, d.Chosen)
+		v.Prefix = append(v.Prefix, d.Chosen&^impliedFlag)
 	}
 	ts := make([]*smt.Term, len(e.nondets))
 	for i, n := range e.nondets {
